@@ -274,7 +274,13 @@ func main() {
 	}
 	phases := []phase{{"all programs, one deviation of any kind", all, vx.Bounds{1, 1, 1, 1, 0}, 1, 0}, {"core programs, two deviations anywhere", core, vx.Bounds{2, 2, 2, 1, 0}, 2, 0}}
 	if r.Thorough() {
-		phases = []phase{{"all programs, two deviations anywhere", all, vx.Bounds{2, 2, 2, 1, 0}, 2, 0}, {"core programs, three deviations among the first 120 choice points", core, vx.Bounds{3, 3, 3, 1, 0}, 3, 120}}
+		var small []prog
+		for _, p := range all {
+			if p.Size == 's' {
+				small = append(small, p)
+			}
+		}
+		phases = []phase{{"all programs, one deviation of any kind", all, vx.Bounds{1, 1, 1, 1, 0}, 1, 0}, {"9-byte-message programs, two deviations anywhere", small, vx.Bounds{2, 2, 2, 1, 0}, 2, 0}, {"core programs, three deviations among the first 120 choice points", core, vx.Bounds{3, 3, 3, 1, 0}, 3, 120}}
 	}
 	var execs, points int64
 	traces := 0
